@@ -3,27 +3,41 @@ import itertools
 from .. import common as C
 
 MANIFEST = dict(
-    text="Lean 4 theorems over executable models of the HTTP/1.x request-head parser (request.c, "
-         "http_header_parse_hoff, h1_recv_headers limits), of the chunked request-body decoder "
-         "(h1_chunked) and of the whole connection (head accumulation with blank-line discard, "
-         "Content-Length counter, chunked decoder, keep-alive decision, close after rejection) as "
-         "byte-at-a-time automata: ambiguous/invalid framing is rejected for every input and option set, "
-         "accepted heads have exactly one RFC 9112 framing, chunked round-trip, no request smuggling on "
-         "pipelines (n well-formed messages give exactly n requests with exactly their bodies), a "
-         "rejection is followed by close and nothing else, one response per request, independence from "
-         "TCP segmentation; models tied to the C by differential runs (grammar-based requests, every "
-         "single-byte corruption, all segmentations of short chunked bodies) under ASan/UBSan and by an "
-         "end-to-end correspondence against the real sanitized server (echoing CGI + static files, "
-         "request pipelines under many segmentations and configurations) with an independent RFC 9112 "
-         "reference framer as oracle",
-    note="trusted: Lean kernel, hand-written models validated by h_request / h_h1body correspondence and "
-         "the e2e pipeline stream, method/header tables regenerated from http_kv.c/http_header.c; "
-         "IPv6-literal host normalisation (inet_pton) is skipped, not modelled; the request handler is "
-         "a parameter of the connection model (status, reads-body, forces-close); TLS, h2c upgrade and "
-         "timeouts are outside",
+    text="Lean 4 theorems over hand-written executable models of the HTTP/1.x request-head parser (request.c, "
+         "http_header_parse_hoff, h1_recv_headers limits), of the chunked request-body decoder (h1_chunked) and of "
+         "the connection (head accumulation with blank-line discard, Content-Length counter, chunked decoder, "
+         "keep-alive decision, close after rejection; request handler = parameter) as byte-at-a-time automata. "
+         "PROVED OVER THE MODELS: an accepted byte block decomposes into request line / field lines / blank line "
+         "and then has at most one numeric Content-Length, at most one Transfer-Encoding which is exactly chunked "
+         "on HTTP/1.1, the RFC 9112 6.3 framing, Host on 1.1, (strict) CRLF everywhere incl. folds and the "
+         "terminating blank line, no WS before a colon, no CTL in values, no CL+TE, no control character anywhere "
+         "in the request-target for every option set configfile.c can produce; chunk-size lines accepted by the "
+         "decoder satisfy a decoder-independent grammar, other lines and missing CRLF are 400; chunked bodies with "
+         "trailers and Content-Length bodies are framed exactly, n well-formed messages give exactly n requests with "
+         "their bodies; for ARBITRARY streams the events are requests, then at most one rejection (status in "
+         "{400,411,413,431,501}) and close, nothing after; trailer overflow closes; segmentation independence of the "
+         "automata. NUL anywhere (strict mode) is proved for method, target, field names and values only "
+         "(c01_nul_rejected_partial). TESTED, NOT PROVED: that request.c/h1.c/connections.c/response.c equal the "
+         "models -- differential runs under ASan/UBSan (grammar-based and directed heads under 11 option sets, every "
+         "single-byte corruption, all segmentations of short chunked bodies with shared and separate read buffers) "
+         "and an end-to-end correspondence against the real server (echoing CGI, static files, error handlers; "
+         "pipelines under many segmentations, read-buffer alignment sweep, 9-14 configurations incl. request "
+         "streaming) with an independent RFC 9112 reference framer as oracle; timing independence and the handler "
+         "side of stream-request-body are covered by the e2e stream only",
+    note="trusted: Lean kernel (propext, Classical.choice, Quot.sound), hand-written models as far as the "
+         "correspondence streams reach, method/header tables regenerated from http_kv.c/http_header.c, "
+         "e2e.parse_responses; IPv6-literal host normalisation (inet_pton) is skipped, not modelled; "
+         "configfile.c's 'any url option forces url-normalize' is a hypothesis of the target theorem (mirrored in "
+         "c01.py parseopt_bits, exercised by the e2e servers); TLS, h2c upgrade and timeouts are outside",
     tech="Lean 4 proof over hand-written model + differential correspondence (in-process C harness + "
          "end-to-end against the real server)",
     ref="6/C01")
+LEVEL = "proof"
+EXPLANATION = ("claimed PARTIAL: every clause of the property is proved over the models except (a) NUL in strict mode "
+               "outside method/target/field names/values (tokeniser coverage, correspondence only), (b) independence "
+               "from timing and the equality of the buffer-oriented C with the byte automata (correspondence only: "
+               "chunked/chunkedb in-process streams, e2e segmentations and alignment sweep), (c) server.stream-request-"
+               "body modes and the handlers' share of keep-alive (e2e only); TLS/h2c upgrade outside")
 
 HS, HOSTS, HOSTN, UN, UU, UR, CR_, F2D, F2R, DSR, DSJ, Q20, U8R, GB = \
     1, 2, 4, 8, 16, 32, 64, 256, 512, 1024, 2048, 4096, 8192, 0x8000
@@ -852,7 +866,11 @@ def gen_align(ctx, confs):
                         break
         # (B) padding = data of the first chunk of the same chunked request
         tail = b"\r\n0\r\n\r\n" + nxt
-        for k in range(-3, 14 if ctx.quick else len(tail) - 8):
+        # (quadratic in the chunk length for the byte automaton: few positions in the quick tier -- behind the data,
+        #  behind its CRLF, behind the last-chunk line, inside and behind the final CRLF --, one configuration)
+        if ci != cis[0]:
+            continue
+        for k in ((0, 2, 5, 6, 7) if ctx.quick else range(-3, len(tail) - 8)):
             for N in range(B - k - 90, B - k - 50):
                 pre = ck + b"%x\r\n" % N
                 if len(pre) + N + k == B:
@@ -870,8 +888,13 @@ def gen_trailer_overflow(ctx, confs):
         if cf["name"] not in ("default", "stream1", "limits", "lenient", "error-handler"):
             continue
         mf = cf["maxfield"]
-        for extra in (-40, 0, 300):
-            for tailreq in (LOOKALIKE, b"X-End: 1\r\n\r\n"):
+        # (the byte automaton is quadratic in the length of a trailer section: in the quick tier the 8 KiB sections
+        #  go to the default configuration only, the other configurations are covered by the 512-byte limit)
+        big = mf > 1024
+        if ctx.quick and big and cf["name"] != "default":
+            continue
+        for extra in ((0, 300) if ctx.quick and big else (-40, 0, 300)):
+            for tailreq in ((LOOKALIKE,) if ctx.quick and big else (LOOKALIKE, b"X-End: 1\r\n\r\n")):
                 head = b"POST /echo.pl HTTP/1.1\r\nHost: a\r\nTransfer-Encoding: chunked\r\n\r\n3\r\nabc\r\n0\r\n"
                 trl = b"X-T: " + b"t" * (mf + extra) + b"\r\n"
                 data = head + trl + tailreq + b"GET /index.html HTTP/1.1\r\nHost: a\r\n\r\n" + SENTINEL
@@ -1528,8 +1551,7 @@ def run(ctx):
                         "e2e tolerances: a head beginning with a byte < 0x20 may be answered 400 or with the "
                         "parser's status (depends on how much of the head is buffered; both reject + close); "
                         "mod_cgi answers 411 + close to a chunked body under server.stream-request-body 1/2 unless "
-                        "the whole body arrived with the head; 1xx interim responses are ignored; the terminating "
-                        "blank line of a head may be a bare LF in strict mode"]
+                        "the whole body arrived with the head; 1xx interim responses are ignored"]
 
 
 def replay_conn(ctx, rep):
